@@ -34,9 +34,9 @@ var seeds = []seed{
 	{"diff:has-key:null~dv", `[0xc0] | tobytes | msgpack | .value`, `has("a")`},
 	{"diff:has-index:array~dv", `[0x92, 1, 2] | tobytes | msgpack | .elements`, `[has(1.0), has(0.5), has(2.0), has(-1.0), has(18446744073709551616)]`},
 	{"diff:has-index:array~dv", `"[1,2]" | json`, `[has(1.0), has(0.5), has(2.0), has(18446744073709551616)]`},
-	{"order-differs:json-object", `"{\"b\":1,\"a\":2,\"c\":3,\"e\":4,\"d\":5,\"g\":6,\"f\":7,\"h\":8}" | json`, `keys`},
-	{"order-differs:json-object", `"{\"b\":1,\"a\":2,\"c\":3,\"e\":4,\"d\":5,\"g\":6,\"f\":7,\"h\":8}" | json`, `[.[]]`},
-	{"order-differs:json-object", `"{\"b\":1,\"a\":2,\"c\":3,\"e\":4,\"d\":5,\"g\":6,\"f\":7,\"h\":8}" | json`, `to_entries | map(.key) | join("")`},
+	{"regression:json-object-order", `"{\"b\":1,\"a\":2,\"c\":3,\"e\":4,\"d\":5,\"g\":6,\"f\":7,\"h\":8}" | json`, `keys`},
+	{"regression:json-object-order", `"{\"b\":1,\"a\":2,\"c\":3,\"e\":4,\"d\":5,\"g\":6,\"f\":7,\"h\":8}" | json`, `[.[]]`},
+	{"regression:json-object-order", `"{\"b\":1,\"a\":2,\"c\":3,\"e\":4,\"d\":5,\"g\":6,\"f\":7,\"h\":8}" | json`, `to_entries | map(.key) | join("")`},
 	{"diff:index:string~dv", `[0xa2, 0x61, 0x62] | tobytes | msgpack | .value`, `[.[5], .[-5], .[2]]`},
 }
 
